@@ -242,6 +242,8 @@ def run(prop, tier_name=None, replay=None):
                     m = next(x for x in s["machines"] if x["name"] == st["machine"])
                     if m.get("type", "STANDARD") != "STANDARD" or s.get("world", {}).get("hist_quota"):
                         raise S.NotPlain("express")
+                    if not set(S.functions_of(m["asl"])) <= set(s.get("workers", [])):
+                        raise S.NotPlain("a function nobody serves")
                     val = S.expected_output(m["asl"], st["input"], s.get("oracle"))
                     out.append({"k": "expect", "fr": 0, "t": 0, "exec": W.exec_arn(st["machine"], st["name"]), "status": "SUCCEEDED",
                                 "output": json.dumps(val), "error": None, "strict": True})
